@@ -14,7 +14,7 @@ use std::collections::{BTreeSet, HashMap};
 pub const DEF: PropDef = PropDef {
     id: "C13",
     level: "exploration",
-    rule: "documents = one abstract line list (filler line i: <http://e/s{i}> <http://e/p{i%3}> (<http://e/o{i%7}> | \"v{i%5}\") .) of n lines, n in {0,1,2} ∪ {998..1003} ∪ {1998..2002} ∪ {3001} (loader chunk size 1000, read from parse_ntriples/parse_n3; thorough adds 2003, 2998..3003, 4001, and 8190..8194 for RDF/XML whose batch size is 8192 triples), with ONE distinguished line of each kind {none, @prefix used only by later lines, term first seen 3 lines earlier (= previous chunk at offsets 0..+2), duplicate of the triple 3 lines earlier, lang-tagged literal, datatyped literal, literal with escapes, quoted triples (literal inside; nested), comment, blank line, IRI containing #, blank-node subject} placed at EVERY line index b-2..b+2 around EVERY chunk boundary b in {1000,2000,3000,..} that exists in the document (every index for n<=2); each abstract document is rendered to N-Triples, N-Quads, N-Quads with a graph column, Turtle, N3, RDF/XML (a format takes part iff every line is expressible in the subset its loader supports; skips are counted) x prior content {empty, one triple sharing no term, one triple sharing predicate+object, the document's first triple, non-empty dictionary without triples} x rayon pool size {1,2,4,16} (ThreadPool::install around the loader). QUICK tier reductions (thorough runs the full product, except pool sizes {2,16} instead of all four for the loaders that never touch the installed pool on documents of more than 1003 lines): documents up to the first boundary (n <= 1003) run all kinds, all five priors, all four pool sizes for the two loaders that run rayon tasks on the installed pool (parse_ntriples, parse_n3) and one pool size for the others (parse_turtle and parse_nquads_and_add are sequential, parse_rdf uses its own threads); documents beyond it (n >= 1998) keep every offset of every boundary with the chunk-sensitive kinds {@prefix, earlier term, duplicate} (+ {comment, blank line} at later boundaries), priors {empty, first triple}, pool sizes {1,4}. Oracle per load: (a) lexical quads (decode_any over all_quads) and named graphs after the load = prior ∪ quads the reference reader finds in the text; (b) dictionary still a bijection, next_id above every id, prior ids unchanged; (c) every load that satisfied (a) shows the same quads as the N-Triples load of the same abstract list. non-trivial = the document has >= 2 triples and (spans > 1 chunk or prior dictionary non-empty or has a distinguished line); distinct = distinct (n, kind, position, prior, pool, format). Interleavings INSIDE the rayon pool are not enumerable (work stealing is not interceptable); pool sizes are. Verified by reading: parse_ntriples chunk tasks are pure functions of their lines (they only call the &self tokenisers parse_ntriples_parts/clean_ntriples_term, no dictionary access), collect() keeps chunk order and encode_triples encodes sequentially; parse_n3 chunk tasks each own a private SparqlDatabase and are merged sequentially (by id - the defect found); parse_turtle and parse_nquads_and_add never use rayon; parse_rdf encodes sequentially while reading and only ships batches of 8192 encoded triples to crossbeam threads whose results are inserted sequentially.",
+    rule: "documents = one abstract line list (filler line i: <http://e/s{i}> <http://e/p{i%3}> (<http://e/o{i%7}> | \"v{i%5}\") .) of n lines, n in {0,1,2} ∪ {998..1003} ∪ {1998..2002} ∪ {3001} (loader chunk size 1000, read from parse_ntriples/parse_n3; thorough adds 2003, 2998..3003, 4001, and 8190..8194 for RDF/XML whose batch size is 8192 triples), with ONE distinguished line of each kind {none, @prefix used only by later lines, @prefix RE-BINDING (x: bound on line 0 and used by every line before the distinguished line, which binds x: to another namespace used by every later line), term first seen 3 lines earlier (= previous chunk at offsets 0..+2), duplicate of the triple 3 lines earlier, lang-tagged literal, datatyped literal, literal with escapes, quoted triples (literal inside; nested), comment, blank line, IRI containing #, blank-node subject} placed at EVERY line index b-2..b+2 around EVERY chunk boundary b in {1000,2000,3000,..} that exists in the document (every index for n<=2); each abstract document is rendered to N-Triples, N-Quads, N-Quads with a graph column, Turtle, N3, RDF/XML (a format takes part iff every line is expressible in the subset its loader supports; skips are counted) x prior content {empty, one triple sharing no term, one triple sharing predicate+object, the document's first triple, non-empty dictionary without triples} x rayon pool size {1,2,4,16} (ThreadPool::install around the loader). QUICK tier reductions (thorough runs the full product, except pool sizes {2,16} instead of all four for the loaders that never touch the installed pool on documents of more than 1003 lines): documents up to the first boundary (n <= 1003) run all kinds, all five priors, all four pool sizes for the two loaders that run rayon tasks on the installed pool (parse_ntriples, parse_n3) and one pool size for the others (parse_turtle and parse_nquads_and_add are sequential, parse_rdf uses its own threads); documents beyond it (n >= 1998) keep every offset of every boundary with the chunk-sensitive kinds {@prefix, @prefix re-binding, earlier term, duplicate} (+ {comment, blank line} at later boundaries), priors {empty, first triple}, pool sizes {1,4}. Oracle per load: (a) lexical quads (decode_any over all_quads) and named graphs after the load = prior ∪ quads the reference reader finds in the text; (b) dictionary still a bijection, next_id above every id, prior ids unchanged; (c) every load that satisfied (a) shows the same quads as the N-Triples load of the same abstract list. non-trivial = the document has >= 2 triples and (spans > 1 chunk or prior dictionary non-empty or has a distinguished line); distinct = distinct (n, kind, position, prior, pool, format). Interleavings INSIDE the rayon pool are not enumerable (work stealing is not interceptable); pool sizes are. Verified by reading: parse_ntriples chunk tasks are pure functions of their lines (they only call the &self tokenisers parse_ntriples_parts/clean_ntriples_term, no dictionary access), collect() keeps chunk order and encode_triples encodes sequentially; parse_n3 chunk tasks each own a private SparqlDatabase and are merged sequentially (by id - the defect found); parse_turtle and parse_nquads_and_add never use rayon; parse_rdf encodes sequentially while reading and only ships batches of 8192 encoded triples to crossbeam threads whose results are inserted sequentially.",
     assumptions: &[
         "reference model: harness/src/reference/loader.rs (generator + independent reader, self-tested on hand-written documents); expected quads are computed from the rendered TEXT by the reference reader and cross-checked against the abstract list",
         "lexical forms: IRI bare, blank node _:label, plain literal = decoded value, \"v\"^^<dt> -> v, \"v\"@en -> v@en (the forms N-Triples/N-Quads loaders implement); N3 is checked against the literal token form parse_n3 documents (quotes, raw escapes, @lang, ^^datatype) and the resulting difference to all other formats is reported by the cross-format clause",
@@ -34,6 +34,7 @@ pub const CHUNK: usize = 1000;
 pub enum Kind {
     None,
     Prefix,
+    PrefixRebind,
     EarlyTerm,
     Duplicate,
     LangLit,
@@ -46,9 +47,10 @@ pub enum Kind {
     BlankSubj,
 }
 
-pub const KINDS: [Kind; 12] = [
+pub const KINDS: [Kind; 13] = [
     Kind::None,
     Kind::Prefix,
+    Kind::PrefixRebind,
     Kind::EarlyTerm,
     Kind::Duplicate,
     Kind::LangLit,
@@ -152,6 +154,22 @@ pub fn build_doc(n: usize, kind: Kind, pos: Option<usize>) -> Vec<Line> {
             for l in lines.iter_mut().skip(p + 1) {
                 if let Line::Triple { pname, .. } = l {
                     *pname = true;
+                }
+            }
+        }
+        Kind::PrefixRebind => {
+            // x: bound to http://e/ on line 0, used by every line up to p, RE-BOUND to http://f/ on
+            // line p and used under the new binding by every later line (subjects move to http://f/)
+            if p >= 1 {
+                lines[0] = Line::Prefix { name: "x".into(), iri: "http://e/".into() };
+            }
+            lines[p] = Line::Prefix { name: "x".into(), iri: "http://f/".into() };
+            for (i, l) in lines.iter_mut().enumerate().skip(1) {
+                if let Line::Triple { pname, s, .. } = l {
+                    *pname = true;
+                    if i > p {
+                        *s = iri(format!("http://f/s{}", i));
+                    }
                 }
             }
         }
@@ -259,9 +277,9 @@ pub fn documents(thorough: bool) -> Vec<(usize, Kind, Option<usize>)> {
 /// run there by the documents of 999..1002 lines), around later boundaries also {Comment, EmptyLine}.
 fn quick_kind_for_large(k: Kind, p: usize) -> bool {
     if p <= CHUNK + 2 {
-        matches!(k, Kind::Prefix | Kind::EarlyTerm | Kind::Duplicate)
+        matches!(k, Kind::Prefix | Kind::PrefixRebind | Kind::EarlyTerm | Kind::Duplicate)
     } else {
-        matches!(k, Kind::Prefix | Kind::EarlyTerm | Kind::Duplicate | Kind::Comment | Kind::EmptyLine)
+        matches!(k, Kind::Prefix | Kind::PrefixRebind | Kind::EarlyTerm | Kind::Duplicate | Kind::Comment | Kind::EmptyLine)
     }
 }
 
